@@ -463,6 +463,15 @@ func genStanzaError(t *rapid.T, invalid bool) stanza.Error {
 		}
 		se.Text[lang] = val
 	}
+	if rapid.IntRange(0, 29).Draw(t, "manytexts") == 0 {
+		// translations into dozens of languages
+		if se.Text == nil {
+			se.Text = map[string]string{}
+		}
+		for i, m := 0, rapid.SampledFrom([]int{9, 17, 33, 65}).Draw(t, "nmanytexts"); i < m; i++ {
+			se.Text[fmt.Sprintf("en-x-l%d", i)] = fmt.Sprintf("text %d", i)
+		}
+	}
 	return se
 }
 
@@ -602,6 +611,11 @@ func genStreamError(t *rapid.T, invalid bool) stream.Error {
 			lt.Value = genText(t, "stval", invalid)
 		}
 		e.Text = append(e.Text, lt)
+	}
+	if rapid.IntRange(0, 29).Draw(t, "manystexts") == 0 {
+		for i, m := 0, rapid.SampledFrom([]int{9, 17, 33, 65}).Draw(t, "nmanystexts"); i < m; i++ {
+			e.Text = append(e.Text, langText{Lang: fmt.Sprintf("en-x-l%d", i), Value: fmt.Sprintf("text %d", i)})
+		}
 	}
 	return e
 }
